@@ -23,7 +23,7 @@ def syntax_only(workdir, name, body, extra_inc=()):
 
 class C06(Prop):
     id = 'C06'
-    theorems = ['C06.eight_files', 'C06.support_files_named_by_prefix', 'C06.include_closure_support', 'C06.named_scope_partial', 'C06.named_scope_witness']
+    theorems = ['C06.eight_files', 'C06.support_files_named_by_prefix', 'C06.include_closure_support', 'C06.named_scope_partial', 'C06.named_scope_witness', 'C06.include_closure_shell', 'C06.shell_includes_selector_iff']
     partial = [('C06.compiler_acceptance', 'acceptance by a C++17 compiler is not expressible in the model; it is sampled '
                 '(every header alone, twice, shell used from a second translation unit and linked, two prefixes in one '
                 'program) as model validation and as oracle for the failing-input search'),
